@@ -86,11 +86,11 @@ pub fn judge_doc(doc: &Doc, cover: &mut Cover, out: &mut Vec<Violation>) {
 // (b)/(c) programmatic graphs
 
 /// Judge a graph in which every cycle passes through a named node.
-pub fn judge_graph(g: &[GNode], sm: &SchemaMut, origin: &str, cover: &mut Cover, out: &mut Vec<Violation>) {
+pub fn judge_graph(g: &[GNode], sm: &SchemaMut, origin: &str, sp: ggen::NameSpell, cover: &mut Cover, out: &mut Vec<Violation>) {
 	cover.evaluations += 1;
 	let desc = ggen::describe(g);
 	let mut viol = |class: &str, what: String| {
-		out.push(Violation { class: class.to_owned(), what: format!("graph {desc} ({origin}): {what}"), replay: json!({"check": "C09", "kind": "graph", "graph": ggen::to_json(g), "origin": origin}) });
+		out.push(Violation { class: class.to_owned(), what: format!("graph {desc} ({origin}): {what}"), replay: json!({"check": "C09", "kind": "graph", "graph": ggen::to_json(g), "origin": origin, "names": sp.label()}) });
 	};
 	let expected: RSchema = ggen::unfold(g);
 	cover.impl_runs += 1;
@@ -191,7 +191,7 @@ pub fn judge_graph(g: &[GNode], sm: &SchemaMut, origin: &str, cover: &mut Cover,
 	}
 	let f = sgen::feats(&expected);
 	if f.refs >= 1 || f.ns_transitions >= 1 {
-		cover.nontrivial.insert(hash64(&(origin.as_bytes()[0], g)));
+		cover.nontrivial.insert(hash64(&(origin.as_bytes()[0], g, sp)));
 	}
 	if f.recursive {
 		cover.count("graphs_with_cycle_through_named_node", 1);
@@ -342,6 +342,20 @@ fn crash_text(sig: &str) -> String {
 	}
 }
 
+/// Judge a graph under every name-construction spelling of its level.
+fn judge_spellings(g: &[GNode], b: &GBounds, cover: &mut Cover, out: &mut Vec<Violation>) {
+	for sp in ggen::spellings_for(b) {
+		if *sp == ggen::NameSpell::Dotted && !ggen::has_null_namespace_name(g) {
+			continue;
+		}
+		if *sp != ggen::NameSpell::Plain && ggen::has_null_namespace_name(g) {
+			cover.count("graphs_with_dot_constructed_null_namespace_names", 1);
+		}
+		let sm = SchemaMut::from_nodes(ggen::to_crate_spelled(g, *sp));
+		judge_graph(g, &sm, sp.origin(), *sp, cover, out);
+	}
+}
+
 fn room50(cover: &Cover, out: &[Violation]) -> bool {
 	(out.len() as u64) < 50 + cover.counters.get("attributed_violations").copied().unwrap_or(0)
 }
@@ -362,8 +376,7 @@ fn run_unit(tier: &str, li: usize, b: &GBounds, opts: &[Vec<GNode>], first: usiz
 			} else if ggen::has_cycle(&g) {
 				named_cyclic += 1;
 			} else if room50(&cover, &out) {
-				let sm = SchemaMut::from_nodes(ggen::to_crate(&g));
-				judge_graph(&g, &sm, "built with from_nodes", &mut cover, &mut out);
+				judge_spellings(&g, b, &mut cover, &mut out);
 			}
 		} else {
 			cover.count("vectors_outside_the_space", 1);
@@ -417,8 +430,7 @@ fn run_unit(tier: &str, li: usize, b: &GBounds, opts: &[Vec<GNode>], first: usiz
 			leaf += 1;
 			if let Some(g) = g {
 				if !ggen::has_unnamed_cycle(&g) && ggen::has_cycle(&g) && scr.crashed(this).is_none() && scr.usable(this) && room50(&cover, &out) {
-					let sm = SchemaMut::from_nodes(ggen::to_crate(&g));
-					judge_graph(&g, &sm, "built with from_nodes", &mut cover, &mut out);
+					judge_spellings(&g, b, &mut cover, &mut out);
 				}
 			}
 			true
@@ -573,7 +585,7 @@ pub fn worker(args: &[String]) -> i32 {
 				}
 				if let Some(g) = g {
 					if ggen::has_cycle(&g) {
-						let sm = SchemaMut::from_nodes(ggen::to_crate(&g));
+						let sm = SchemaMut::from_nodes(ggen::to_crate_spelled(&g, ggen::spellings_for(b)[0]));
 						render_screened(this, &g, &sm);
 					}
 				}
@@ -589,7 +601,7 @@ pub fn worker(args: &[String]) -> i32 {
 			for (li, line) in text.lines().enumerate() {
 				let case = case_from_line(line, &grammars, &specials);
 				let Some((_, edits)) = edits_of(&case) else { continue };
-				for (j, (_, sm)) in edits.iter().enumerate() {
+				for (j, (_, sm, _)) in edits.iter().enumerate() {
 					let id = li as u64 * EDIT_STRIDE + j as u64;
 					if id < start {
 						continue;
@@ -637,23 +649,31 @@ fn case_from_line(line: &str, grammars: &[sgen::Bounds], specials: &[(String, RS
 }
 
 /// The plain spelling of the case parsed, and every edit of it (deterministic order).
-fn edits_of(case: &AstCase) -> Option<(String, Vec<(String, SchemaMut)>)> {
+/// Edits carry, for renames, the (node, fullname) the edit MEANS — the model's side of the name,
+/// independent of what the crate's `Name` reports afterwards.
+type Edit = (String, SchemaMut, Option<(usize, String)>);
+
+fn edits_of(case: &AstCase) -> Option<(String, Vec<Edit>)> {
 	let text = spell(&case.ast, &mut vmodel::Zero, &SpellCfg::plain());
 	let Out::Ok(sm) = guarded(|| text.parse::<SchemaMut>().map_err(|e| e.to_string())) else { return None };
 	let n = sm.nodes().len();
-	let mut edits: Vec<(String, SchemaMut)> = Vec::new();
+	let mut edits: Vec<Edit> = Vec::new();
 	// identity edit: nodes_mut() drops the stored JSON, the document is regenerated
 	let mut id = sm.clone();
 	let _ = id.nodes_mut();
-	edits.push(("nodes_mut() without change".into(), id));
+	edits.push(("nodes_mut() without change".into(), id, None));
 	for i in 0..n {
 		if sm.nodes()[i].type_.name().is_some() {
 			for ns in sgen::NAMESPACES {
 				let mut e = sm.clone();
 				let new = sgen::join(ns, "Q");
 				*e.nodes_mut()[i].type_.name_mut().unwrap() = Name::from_fully_qualified_name(new.clone());
-				edits.push((format!("node {i} renamed to {new}"), e));
+				edits.push((format!("node {i} renamed to {new}"), e, Some((i, new))));
 			}
+			// the null namespace said by name alone
+			let mut e = sm.clone();
+			*e.nodes_mut()[i].type_.name_mut().unwrap() = Name::from_fully_qualified_name(".Q");
+			edits.push((format!("node {i} renamed to Name::from_fully_qualified_name(\".Q\")"), e, Some((i, "Q".to_owned()))));
 		}
 		if matches!(sm.nodes()[i].type_, RegularType::Record(_)) {
 			for k in 0..n {
@@ -661,7 +681,7 @@ fn edits_of(case: &AstCase) -> Option<(String, Vec<(String, SchemaMut)>)> {
 				if let RegularType::Record(r) = &mut e.nodes_mut()[i].type_ {
 					r.fields.push(RecordField::new("zz", SchemaKey::from_idx(k)));
 				}
-				edits.push((format!("field zz: node {k} added to record node {i}"), e));
+				edits.push((format!("field zz: node {k} added to record node {i}"), e, None));
 			}
 		}
 	}
@@ -719,12 +739,18 @@ fn run_base_range(tier: &str, set: &sgen::BaseSet, range: std::ops::Range<usize>
 			cover.count("skipped_document_rejected_by_parser", 1);
 			continue;
 		};
-		for (j, (what, sm)) in edits.iter().enumerate() {
+		for (j, (what, sm, renamed)) in edits.iter().enumerate() {
 			if !sgen::room(&cover, &out) {
 				break;
 			}
 			let id = li as u64 * EDIT_STRIDE + j as u64;
-			let Some(g) = ggen::from_crate(sm.nodes()) else { continue };
+			let Some(mut g) = ggen::from_crate(sm.nodes()) else { continue };
+			if let Some((i, full)) = renamed {
+				match &mut g[*i].kind {
+					GKind::Record(n, _) | GKind::Enum(n, _) | GKind::Fixed(n, _) => *n = full.clone(),
+					_ => {}
+				}
+			}
 			if !ggen::unique_fullnames(&g) || ggen::has_unnamed_cycle(&g) {
 				machinery(format!("edit {what} of {text} left the enumerated space"));
 			}
@@ -745,7 +771,7 @@ fn run_base_range(tier: &str, set: &sgen::BaseSet, range: std::ops::Range<usize>
 			cover.count("edited_graphs", 1);
 			cover.states += 1;
 			cover.transitions += 1;
-			judge_graph(&g, sm, &origin, &mut cover, &mut out);
+			judge_graph(&g, sm, &origin, ggen::NameSpell::Plain, &mut cover, &mut out);
 		}
 	}
 	(cover, out)
@@ -760,7 +786,7 @@ pub fn run(rep: &mut Report) {
 	let edit_max_named = if thorough { 3 } else { 2 };
 	let hist_depth = if thorough { 5 } else { 4 };
 	rep.rule = format!(
-		"SAE. (a) parsed documents: C07's valid ASTs and forward-reference variants; spellings: 'every site takes option k' (k=0..3) under all 18 document-level configurations (attribute order x extra attributes incl. unknown keys with nested JSON x whitespace) for ASTs with <= 2 named types (larger ASTs: k=0..3 plain + k=1 under the 17 other configurations), plus the per-site product of name/reference spellings for ASTs with <= 2 named types; oracle: Schema::from_str(..).json() = SchemaMut::from_str(..).freeze().json(), no whitespace outside strings, and equal to the original as ordered JSON (own reader: same keys in the same order, numbers by value). (b) programmatic graphs via SchemaMut::from_nodes: every assignment of one option to each node of an n-node vector, options = int, string, array(k), map(k), union(k1!=k2), record(1 field k / 2 fields k1,k2) in each namespace, enum and fixed in each namespace (+ logical annotations date/uuid/decimal/duration/unknown on int, string, bytes, fixed, enum, array, record) with every in-range key, kept when all nodes are reachable, unions are spec-valid and fullnames unique; levels: {}. Graphs whose cycles all pass through a named node: serde_json::to_string Ok, the text resolves (vmodel resolver, leading-dot references allowed) to exactly the unfolded graph, freeze Ok with the same text and fingerprint = CRC-64-AVRO(pcf(unfolded graph)), the crate's parser reads the text back to a bisimilar graph with the same fingerprint (graphs with an unconditional record cycle: reference resolver only). Graphs with a cycle through unnamed nodes only: serde_json::to_string and freeze() must both return Err (no crash). Every rendering / freeze of a graph that contains any cycle is first executed in a worker subprocess (one per unit; SIGSEGV/SIGABRT/SIGALRM attributed to the case in flight, horizon {HORIZON_S} s, worker restarted behind the case). (c) edited: the plain spelling of each valid AST with <= {edit_max_named} named types parsed, then through nodes_mut(): no change / each named node renamed to Q in each namespace / a field added to each record pointing at each node; judged like (b), cyclic ones screened in a worker first. (d) HIST: every history of <= {hist_depth} operations from {{b = a.clone(); a.clone_from(&b); b.clone_from(&a); and for a and b: canonical_form_rabin_fingerprint(), serde_json::to_string(), freeze() (consumes the object), 5 edits through nodes_mut()}} on 5 base schemas (parsed with extra attributes / built), explicit-state BFS with states rebuilt per history; invariant after every operation: serde_json::to_string and freeze().json() report what a fresh SchemaMut::from_nodes(current nodes) renders (a parsed, never edited object: the original document on freeze), and that rendering denotes the current nodes. Non-trivial: (a) documents with a reference, a namespace transition or extra attributes; (d) histories with an observation or clone, then an edit, then an observation; (b)/(c) graphs with a shared or cyclic named node or a namespace transition; distinct by text / node vector.",
+		"SAE. (a) parsed documents: C07's valid ASTs and forward-reference variants; spellings: 'every site takes option k' (k=0..3) under all 18 document-level configurations (attribute order x extra attributes incl. unknown keys with nested JSON x whitespace) for ASTs with <= 2 named types (larger ASTs: k=0..3 plain + k=1 under the 17 other configurations), plus the per-site product of name/reference spellings for ASTs with <= 2 named types; oracle: Schema::from_str(..).json() = SchemaMut::from_str(..).freeze().json(), no whitespace outside strings, and equal to the original as ordered JSON (own reader: same keys in the same order, numbers by value). (b) programmatic graphs via SchemaMut::from_nodes: every assignment of one option to each node of an n-node vector, options = int, string, array(k), map(k), union(k1!=k2), record(1 field k / 2 fields k1,k2) in each namespace, enum and fixed in each namespace (+ logical annotations date/uuid/decimal/duration/unknown on int, string, bytes, fixed, enum, array, record) with every in-range key, kept when all nodes are reachable, unions are spec-valid and fullnames unique; the Names of null-namespace types are constructed both as Name::from_fully_qualified_name(\"X\") and as (\".X\") for n <= 3 (each graph executed under both), mixed by node parity for larger n; levels: {}. Graphs whose cycles all pass through a named node: serde_json::to_string Ok, the text resolves (vmodel resolver, leading-dot references allowed) to exactly the unfolded graph, freeze Ok with the same text and fingerprint = CRC-64-AVRO(pcf(unfolded graph)), the crate's parser reads the text back to a bisimilar graph with the same fingerprint (graphs with an unconditional record cycle: reference resolver only). Graphs with a cycle through unnamed nodes only: serde_json::to_string and freeze() must both return Err (no crash). Every rendering / freeze of a graph that contains any cycle is first executed in a worker subprocess (one per unit; SIGSEGV/SIGABRT/SIGALRM attributed to the case in flight, horizon {HORIZON_S} s, worker restarted behind the case). (c) edited: the plain spelling of each valid AST with <= {edit_max_named} named types parsed, then through nodes_mut(): no change / each named node renamed to Q in each namespace and to Name::from_fully_qualified_name(\".Q\") / a field added to each record pointing at each node; judged like (b), cyclic ones screened in a worker first. (d) HIST: every history of <= {hist_depth} operations from {{b = a.clone(); a.clone_from(&b); b.clone_from(&a); and for a and b: canonical_form_rabin_fingerprint(), serde_json::to_string(), freeze() (consumes the object), 5 edits through nodes_mut()}} on 5 base schemas (parsed with extra attributes / built), explicit-state BFS with states rebuilt per history; invariant after every operation: serde_json::to_string and freeze().json() report what a fresh SchemaMut::from_nodes(current nodes) renders (a parsed, never edited object: the original document on freeze), and that rendering denotes the current nodes. Non-trivial: (a) documents with a reference, a namespace transition or extra attributes; (d) histories with an observation or clone, then an edit, then an observation; (b)/(c) graphs with a shared or cyclic named node or a namespace transition; distinct by text / node vector.",
 		lv.iter().map(|b| format!("{} (n={}, namespaces {:?}{})", b.label, b.n, b.namespaces, if b.canonical_only { ", one numbering per renumbering class" } else { ", all numberings" })).collect::<Vec<_>>().join("; "),
 	);
 	rep.assumptions.push("vmodel::schema::resolve_text implements the specification's name resolution (plus the crate's documented leading-dot spelling for null-namespace references)".into());
@@ -832,6 +858,7 @@ pub fn run(rep: &mut Report) {
 		"unnamed_cycle_graphs_render_and_freeze_err",
 		"named_cycle_graphs_screened_in_worker",
 		"histories_observe_edit_observe",
+		"graphs_with_dot_constructed_null_namespace_names",
 	] {
 		if c(k) == 0 {
 			missing.push(k);
@@ -852,7 +879,9 @@ pub fn replay(v: &serde_json::Value) -> i32 {
 	if r["kind"] == "graph" {
 		let g = ggen::from_json(&r["graph"]).unwrap_or_else(|| machinery("replay: bad graph".into()));
 		println!("graph: {}", ggen::describe(&g));
-		let sm = SchemaMut::from_nodes(ggen::to_crate(&g));
+		let sp = ggen::NameSpell::from_label(r["names"].as_str().unwrap_or("plain"));
+		println!("names: {}", sp.origin());
+		let sm = SchemaMut::from_nodes(ggen::to_crate_spelled(&g, sp));
 		// the rendering may overflow the stack: report it as "CRASH <id> <signal>" and exit 70
 		install_crash_handler();
 		CRASH_EXIT.store(1, Ordering::Relaxed);
@@ -893,7 +922,7 @@ pub fn replay(v: &serde_json::Value) -> i32 {
 			Out::Err(e) => println!("serde_json::to_string: Err({e})"),
 			Out::Panic(e) => println!("serde_json::to_string: PANIC {e}"),
 		}
-		judge_graph(&g, &sm, r["origin"].as_str().unwrap_or("replay"), &mut cover, &mut out);
+		judge_graph(&g, &sm, r["origin"].as_str().unwrap_or("replay"), sp, &mut cover, &mut out);
 	} else {
 		let text = r["text"].as_str().unwrap_or_else(|| machinery("replay file has no text".into())).to_owned();
 		let expect = sgen::expect_from_str(r["expect"].as_str().unwrap_or("valid"));
